@@ -18,3 +18,8 @@ claim("C08", "exploration",
       "Trusted: scripted sources/executor. The async-payload-behind-blocking-interface cell runs under the real futures_executor::block_on with a real helper thread (token-based, outcome-deterministic; verified by the determinism self-check). No payload-source errors are injected (outside the statement).",
       "deterministic simulation: scripted payload sources and consumers across both sync<->async bridges, conservation oracle",
       "DESIGN.md 5.4")
+claim("C09", "exploration",
+      "The only nondeterminism this property depends on — the SipHash keys of the attribute maps — is put behind a seam (getrandom interposed per thread) and driven from VERIF_SEED: every run builds a seeded builder program four times under fresh seeded keys, serialises it and reads the order of the operation-group attribute names with the reference tokenizer; the RFC 8011 4.1.4-4.1.5 positions are asserted exactly as stated. Exploration over programs x key sets with hundreds of thousands of replayable runs (same seed => same order in any process).",
+      "Trusted: the getrandom shim (self-tested at start-up, exit 2 if not effective), refcodec tokenizer. Iteration orders are sampled, not enumerated.",
+      "deterministic simulation: seeded hash keys (interposed getrandom) x seeded builder programs, order decoded from bytes",
+      "DESIGN.md 5.5")
